@@ -20,8 +20,8 @@ def gen(c):
 def run(c):
     c.rule = ("a case draws 2-6 contributions (simple values/counters, streams of AddValueCounterHost events, arbitrary ItemValue leaves, "
               "each with a small unique sketch sharing values) and evaluates 4 merge programs on the real code (given order, permutations, "
-              "random binary trees) through MultiValue.Merge; every 5th case does the same for API rows (tsValues.merge); every 50th case "
-              "(quick; 100th thorough) builds 2-3 sketches of 1..280000 values (sizes around 2^16 included) and merges them with ChUnique.Merge and "
+              "random binary trees) through MultiValue.Merge; every 5th case does the same for API rows (tsValues.merge); every 100th case "
+              "(quick; 125th thorough) builds 2-3 sketches of 1..280000 values (sizes around 2^16 included) and merges them with ChUnique.Merge and "
               "MergeRead in several orders. Non-trivial = a merge consumed a random draw / two leaves tie for the minimum / API rows / "
               "sketch operands with different skipDegree; distinct by op-sequence hash")
     c.assumptions += [
@@ -32,12 +32,12 @@ def run(c):
         "Size(false) is a fixed function of (itemsCount, skipDegree); the theorems are about that pair",
     ]
     binary = gen(c)
-    c.prove("SH.Props.C04", extra_files=["SH/Model/Agg.lean", "SH/Model/Unique.lean"])
+    c.prove("SH.Props.C04", extra_files=["SH/Model/Agg.lean", "SH/Model/Unique.lean", "SH/Lemmas/UniqueTrie.lean"])
     drv = c.driver(DRIVER)
     if binary and drv:
         # mixed stream: values / API rows / a few big-sketch cases
-        n = c.n(500, 12000)
-        every = c.n(50, 100)
+        n = c.n(500, 10000)
+        every = c.n(100, 125)
         rc, out = c.go_run(binary, [f"-n={n}", f"-arg={every}"], timeout=3000)
         c.harness_ok(rc, out, "verif-c04")
         c.correspond(out, drv, timeout=3000)
@@ -46,7 +46,7 @@ def run(c):
         if not binary:
             return
         for k in range(1, 6):
-            rc, out = c.go_run(binary, [f"-n={c.n(2000, 8000)}", f"-arg={c.n(50, 50)}", f"-seed={c.seed + 1000 * k}"], timeout=3000)
+            rc, out = c.go_run(binary, [f"-n={c.n(2000, 8000)}", f"-arg={c.n(40, 40)}", f"-seed={c.seed + 1000 * k}"], timeout=3000)
             c.collect(out)
             if c.oracle:
                 return
